@@ -2,7 +2,11 @@ package panics
 
 import (
 	"fmt"
+	"io"
 	"runtime/debug"
+
+	"github.com/ipld/go-ipld-prime/datamodel"
+	"github.com/ipld/go-ipld-prime/linking"
 )
 
 // CallBackFn is a function that will get called with information about the panic
@@ -39,4 +43,47 @@ type RecoveredPanicErr struct {
 
 func (rpe RecoveredPanicErr) Error() string {
 	return fmt.Sprintf("recovered from panic: %v, stack trace: %s", rpe.PanicObj, rpe.DebugStackTrace)
+}
+
+// WrapStorageReadOpener returns a read opener that turns a panic in the given
+// (user supplied) one into an error, after handing it to the handler
+func WrapStorageReadOpener(opener linking.BlockReadOpener, handler PanicHandler) linking.BlockReadOpener {
+	if opener == nil {
+		return nil
+	}
+	return func(lctx linking.LinkContext, lnk datamodel.Link) (r io.Reader, err error) {
+		defer func() {
+			if rerr := handler(recover()); rerr != nil {
+				r, err = nil, rerr
+			}
+		}()
+		return opener(lctx, lnk)
+	}
+}
+
+// WrapStorageWriteOpener returns a write opener that turns a panic in the given
+// (user supplied) one, or in the committer it returns, into an error
+func WrapStorageWriteOpener(opener linking.BlockWriteOpener, handler PanicHandler) linking.BlockWriteOpener {
+	if opener == nil {
+		return nil
+	}
+	return func(lctx linking.LinkContext) (w io.Writer, committer linking.BlockWriteCommitter, err error) {
+		defer func() {
+			if rerr := handler(recover()); rerr != nil {
+				w, committer, err = nil, nil, rerr
+			}
+		}()
+		w, inner, err := opener(lctx)
+		if err != nil || inner == nil {
+			return w, inner, err
+		}
+		return w, func(lnk datamodel.Link) (err error) {
+			defer func() {
+				if rerr := handler(recover()); rerr != nil {
+					err = rerr
+				}
+			}()
+			return inner(lnk)
+		}, nil
+	}
 }
